@@ -1389,6 +1389,80 @@ class Module:
         self.out.append("@[pygen] def insert (a : Model.BtArray.Arr) (index : Int) (value : Int) : Except PyErr Model.BtArray.Arr :=")
         self.out.append(indent(stmts(ins[2:]), 1)); self.out.append("")
 
+        # ---- T27: integer indexing - `_validate_index` (when present), the int branches of `__getitem__` and `__setitem__`
+        def index_expr(e, node):
+            """the expression used to index self._array with the int `index`: `int(index)` or `self._validate_index(index)`"""
+            s_ = ast.unparse(e)
+            if s_ == "int(index)":
+                return None
+            if s_ == "self._validate_index(index)":
+                return "validate"
+            fail(f"unsupported index expression {s_[:60]}", node)
+
+        has_validate = any(isinstance(n, ast.FunctionDef) and n.name == "_validate_index" for n in self.find_class(cls).body)
+        if has_validate:
+            vf = self.find_func(cls, "_validate_index")
+            if [a.arg for a in vf.args.args] != ["self", "index"]:
+                fail("_validate_index: parameters", vf)
+            env = Env(); env.ints.add("index")
+
+            def cond2(e):
+                if isinstance(e, ast.UnaryOp) and isinstance(e.op, ast.Not):
+                    return f"¬ ({cond2(e.operand)})"
+                if isinstance(e, ast.BoolOp):
+                    return "(" + (" ∧ " if isinstance(e.op, ast.And) else " ∨ ").join(cond2(v) for v in e.values) + ")"
+                if isinstance(e, ast.Compare):
+                    parts, left = [], e.left
+                    for op_, right in zip(e.ops, e.comparators):
+                        o_ = {ast.Lt: "<", ast.Gt: ">", ast.Eq: "=", ast.NotEq: "≠", ast.LtE: "≤", ast.GtE: "≥"}.get(type(op_))
+                        if not o_:
+                            fail(f"unsupported comparison {ast.unparse(e)[:60]}", e)
+                        parts.append(f"{ie(left)} {o_} {ie(right)}")
+                        left = right
+                    return "(" + " ∧ ".join(parts) + ")"
+                fail(f"unsupported condition {ast.unparse(e)[:60]}", e)
+
+            def int_stmts(ss):
+                if not ss:
+                    fail("_validate_index: falls off the end", vf)
+                st, rest = ss[0], ss[1:]
+                if isinstance(st, ast.Return) and st.value is not None and not rest:
+                    return f"Except.ok {ie(st.value)}"
+                if isinstance(st, ast.Assign) and len(st.targets) == 1 and isinstance(st.targets[0], ast.Name):
+                    t_ = ie(st.value)
+                    env.ints.add(st.targets[0].id)
+                    return f"let {st.targets[0].id} : Int := {t_}\n" + int_stmts(rest)
+                if isinstance(st, ast.If) and not st.orelse and len(st.body) == 1 and isinstance(st.body[0], ast.Raise):
+                    return f"if {cond2(st.test)} then {err(st.body[0])} else\n" + int_stmts(rest)
+                fail(f"_validate_index: unsupported statement {ast.unparse(st)[:80]}", st)
+            self.out.append(f"/-- generated from `{cls}._validate_index` -/")
+            self.out.append("@[pygen] def validate_index (a : Model.BtArray.Arr) (index : Int) : Except PyErr Int :=")
+            self.out.append(indent(int_stmts(body_of(vf)), 1)); self.out.append("")
+        gfn = self.find_func(cls, "__getitem__")
+        g_int, _g_slice = branches(gfn, "__getitem__")
+        gtxt = [ast.unparse(x) for x in g_int]
+        if not (len(g_int) == 3 and isinstance(g_int[0], ast.Assign) and ast.unparse(g_int[0].targets[0]) == "entry" and isinstance(g_int[0].value, ast.Call)
+                and ast.unparse(g_int[0].value.func).endswith(".item") and isinstance(g_int[0].value.func.value, ast.Subscript)
+                and ast.unparse(g_int[0].value.func.value.value) == "self._array"
+                and gtxt[1:] == ["as_tuple = TimeValueTuple.from_cvi(*entry)", f"return {item_cls}.from_tuple(as_tuple)"]):
+            fail("__getitem__ (int): not `entry = self._array[<index>].item()` / from_cvi / from_tuple:\n" + "\n".join(gtxt), g_int[0] if g_int else gfn)
+        how = index_expr(g_int[0].value.func.value.slice, g_int[0])
+        if how == "validate" and not has_validate:
+            fail("__getitem__ calls a _validate_index that does not exist", g_int[0])
+        self.out.append(f"/-- generated from `{cls}.__getitem__` (int index): the element NumPy's integer indexing delivers -/")
+        self.out.append("@[pygen] def getitem_int (a : Model.BtArray.Arr) (index : Int) : Except PyErr Int :=")
+        self.out.append("  " + ("Except.bind (validate_index a index) (fun k => Model.Np1.getAt a k)" if how == "validate" else "Model.Np1.getAt a index")); self.out.append("")
+        want_s = f"if not isinstance(value, {item_cls}):\n    raise invalid_arg_type('value', '{item_cls}', value)"
+        if not (len(s_int) == 2 and ast.unparse(s_int[0]) == want_s and isinstance(s_int[1], ast.Assign) and isinstance(s_int[1].targets[0], ast.Subscript)
+                and ast.unparse(s_int[1].targets[0].value) == "self._array" and ast.unparse(s_int[1].value) == "value.to_tuple().to_cvi()"):
+            fail("__setitem__ (int): not the item type check followed by `self._array[<index>] = value.to_tuple().to_cvi()`:\n" + "\n".join(ast.unparse(x) for x in s_int), s_int[0] if s_int else gfn)
+        how = index_expr(s_int[1].targets[0].slice, s_int[1])
+        if how == "validate" and not has_validate:
+            fail("__setitem__ calls a _validate_index that does not exist", s_int[1])
+        self.out.append(f"/-- generated from `{cls}.__setitem__` (int index, value an item) -/")
+        self.out.append("@[pygen] def setitem_int (a : Model.BtArray.Arr) (index : Int) (value : Int) : Except PyErr Model.BtArray.Arr :=")
+        self.out.append("  " + ("Except.bind (validate_index a index) (fun k => Model.Np1.setAt a k value)" if how == "validate" else "Model.Np1.setAt a index value")); self.out.append("")
+
     # -- T18: what appending does to the timing ------------------------------------------------------------------------------------------
     def translate_append_timing(self, cls: str, tag: str) -> None:
         """T18: `append_timing(timing, other)` and `append_timestamps(timing, timestamps)` of one sample-interval strategy over the waveform
